@@ -257,7 +257,14 @@ def rand_ops(r, desc, n, layers):
         if k < 0.06:
             ops.append(reset())
         elif k < 0.10 and ('g' in layers or 'w' in layers):
-            ops.append((r.choice(['set_srep', 'set_orep']), r.choice([0, 1, 2, 2, 1, 3])))
+            kind = r.choice([0, 1, 2, 2, 1, 3])
+            ops.append((r.choice(['set_srep', 'set_orep']), kind))
+            if r.random() < 0.5:
+                # the state side and the observation side are switched to the SAME kind one after the other (both orders), then both are read
+                ops[-1] = (r.choice(['set_srep', 'set_orep']), kind)
+                ops.append(('set_orep' if ops[-1][0] == 'set_srep' else 'set_srep', kind))
+                if 'g' in layers:
+                    ops.extend([('gstate', None), ('gobs', None)])
         else:
             ops.append(step())
         if pattern == 'every':
